@@ -48,7 +48,7 @@ Theorem C03_app_judgement_transfer : forall sc t, JudgeC03P.profile_C03b sc = tr
 Proof. exact JudgeC03P.C03_judgement_transfer. Qed.
 
 
-(* ---- source tie (DESIGN 11.8): definitions REGENERATED from the Rust source text by bin/rs2v.py on every run
+(* ---- source tie (DESIGN 11.7): definitions REGENERATED from the Rust source text by bin/rs2v.py on every run
    (coq/Generated/*.v) coincide with the hand-written model ---- *)
 From BEI Require Generated.ValueSrc Generated.EventsSrc Generated.TrackerSrc Proofs.SrcTieP.
 Theorem C03_source_tracker_state : forall t, TrackerSrc.tracker_state_src t = Tracker.tracker_state t.
